@@ -698,6 +698,13 @@ pub struct IdpfPublicShare<VI, VL> {
     leaf_correction_word: IdpfCorrectionWord<VL>,
 }
 
+impl<VI, VL> IdpfPublicShare<VI, VL> {
+    /// The length in bits of the inputs of the IDPF this public share was generated for.
+    pub(crate) fn bits(&self) -> usize {
+        self.inner_correction_words.len() + 1
+    }
+}
+
 impl<VI, VL> ConstantTimeEq for IdpfPublicShare<VI, VL>
 where
     VI: ConstantTimeEq,
